@@ -180,6 +180,17 @@ def random_client(rnd) -> str:
 # client source -> pyfile term
 
 
+def _unpacked(t):
+    """parsing._unpack_ast_target: Name, Tuple, List, Starred"""
+    if isinstance(t, ast.Name):
+        return [t.id]
+    if isinstance(t, (ast.Tuple, ast.List)):
+        return [n for e in t.elts for n in _unpacked(e)]
+    if isinstance(t, ast.Starred):
+        return _unpacked(t.value)
+    return []
+
+
 def t_pyfile(source: str) -> str:
     root = ast.parse(source)
     imports, occs = [], []
@@ -195,6 +206,18 @@ def t_pyfile(source: str) -> str:
         elif isinstance(node, ast.Attribute):
             base = node.value.id if isinstance(node.value, ast.Name) else None
             occs.append(f"(OAttr {gopt(base, gname)} {gname(node.attr)})")
+        elif isinstance(node, ast.keyword) and node.arg is not None:
+            occs.append(f"(OKeyword {gname(node.arg)})")
+        elif isinstance(node, ast.MatchClass):
+            occs += [f"(OKeyword {gname(a)})" for a in node.kwd_attrs]
+        elif isinstance(node, ast.ClassDef) and node.bases:
+            for m in node.body:
+                if isinstance(m, (ast.FunctionDef, ast.AsyncFunctionDef, ast.ClassDef)):
+                    occs.append(f"(OSubMember {gname(m.name)})")
+                elif isinstance(m, (ast.Assign, ast.AnnAssign, ast.AugAssign)):
+                    targets = m.targets if isinstance(m, ast.Assign) else [m.target]
+                    for t in targets:
+                        occs += [f"(OSubMember {gname(n)})" for n in _unpacked(t)]
     return f"{{| f_imports := {glist(imports)}; f_occs := {glist(occs)} |}}"
 
 
@@ -352,6 +375,16 @@ def match_finding(findings, case):
 # round-4 hunt families (seed-independent).  Each entry: (tag, library source, client source)
 
 
+EXTRA_CLIENTS = [   # shapes for the used_names correspondence: keywords, subclass members, mangled attributes
+    "import lib\nlib.f(aB=1, **{'c': 2})\nprint(dict(x=1), lib.g(lib.h(yZ=3)))\n",
+    "import lib\n\n\nclass B(lib.Base, metaclass=type):\n    a, *b = 1, 2, 3\n    [c, d] = 4, 5\n    e: int = 6\n    f: int\n"
+    "    e += 1\n    class Inner:\n        innerAttr = 1\n    async def am(self):\n        return 1\n",
+    "class NoBases:\n    notCollected = 1\n    def neither(self):\n        return 1\n",
+    "import lib\nprint(lib.A._A__x, lib.a._My_Class__y_z, lib.a.__dunder__, lib.a._x__, lib.a.__a__b, lib.a._a___b, lib.a.a__b)\n",
+    "from lib import *\nfrom other import name as alias, second\nprint(free, alias)\n",
+]
+
+
 def hunt_pairs():
     out = []
     # H0 bindings the library gets by import and the client reaches through the library
@@ -479,7 +512,28 @@ def _sig_loop_target_lost(case) -> bool:
         return False
 
 
-SIGS.update({"import_binding_lost": _sig_import_binding_lost, "star_import_narrowed": _sig_star_import_narrowed,
+def _method_kinds(source: str):
+    out = {}
+    for c in ast.walk(ast.parse(source)):
+        if isinstance(c, ast.ClassDef):
+            for m in c.body:
+                if isinstance(m, (ast.FunctionDef, ast.AsyncFunctionDef)):
+                    out[(c.name, m.name)] = tuple(sorted(d.id for d in m.decorator_list if isinstance(d, ast.Name)
+                                                         and d.id in ("staticmethod", "classmethod")))
+    return out
+
+
+def _sig_method_kind_changed(case) -> bool:
+    """no definition is lost, but a method became a staticmethod / classmethod (its name is kept)"""
+    try:
+        a, b = _method_kinds(_case_source(case)), _method_kinds(_case_output(case))
+    except SyntaxError:
+        return False
+    return not case.get("lost_top") and not case.get("lost_members") and any(b.get(k, v) != v for k, v in a.items())
+
+
+HUNT_SIGS = {"method_kind_changed", "import_binding_lost", "star_import_narrowed", "loop_target_lost"}
+SIGS.update({"method_kind_changed": _sig_method_kind_changed, "import_binding_lost": _sig_import_binding_lost, "star_import_narrowed": _sig_star_import_narrowed,
              "loop_target_lost": _sig_loop_target_lost})
 
 
@@ -529,7 +583,7 @@ def namespace_collision_case(mods, tree: Path):
 def match_site_finding(findings, site, case):
     """a hunt finding suppresses a failure only when the bisected site is the finding's site AND its predicate holds"""
     for f in findings:
-        if f.kind != "finding" or "hunt" not in f.fields:
+        if f.kind != "finding" or f.fields.get("sig") not in HUNT_SIGS:
             continue
         sites = set(f.fields.get("site", "").split(","))
         pred = SIGS.get(f.fields.get("sig", ""))
@@ -557,7 +611,8 @@ def check(run: common.Run):
     pairs = list(all_pairs())
     n_exh = len(pairs)
     nrand = 60 if quick else 1500
-    clients = [c for _, _, c in pairs] + [random_client(rnd) for _ in range(nrand)]
+    clients = [c for _, _, c in pairs] + [c for _, _, c in hunt_pairs()] + EXTRA_CLIENTS + \
+              [random_client(rnd) for _ in range(nrand)]
 
     # ---- (a) _used_names_in_file vs used_names
     ucases = []
@@ -722,6 +777,7 @@ def check(run: common.Run):
         failures.append(fail)
     # round-4 hunt families: bindings by import / starred import / loops, keywords, overrides, __all__,
     # name mangling, dotted file names.  Failures are bisected (first stage after which the client breaks)
+    hunt_examples = {}
     for tag, lib_src, c in hunt_pairs():
         for passes in ((1,) if quick else (1, 5)):
             n_sweep += 1
@@ -733,6 +789,7 @@ def check(run: common.Run):
                 fid = match_site_finding(findings, fail["site"], fail)
                 if fid:
                     suppressed[fid] += 1
+                    hunt_examples.setdefault(fid, fail)
                 else:
                     failures.append(fail)
     for tag, src, P in HUNT_SINGLE:
@@ -744,6 +801,7 @@ def check(run: common.Run):
             fid = match_site_finding(findings, fail["site"], fail)
             if fid:
                 suppressed[fid] += 1
+                hunt_examples.setdefault(fid, fail)
             else:
                 failures.append(fail)
     n_sweep += 1
@@ -789,6 +847,15 @@ def check(run: common.Run):
     # ---- known findings
     for fnd in findings:
         if fnd.kind != "finding":
+            continue
+        if fnd.fields.get("sig") in HUNT_SIGS:      # replayed by the hunt families of the sweep (site + predicate)
+            if suppressed.get(fnd.id):
+                ex = hunt_examples.get(fnd.id, {})
+                run.known_finding(fnd.id, f"{fnd.text} [{suppressed[fnd.id]} sweep cases reproduce at this site with "
+                                          f"this signature, e.g. {ex.get('lib', ex.get('source', ''))!r} -> "
+                                          f"{ex.get('new_lib', ex.get('output', ''))!r}]")
+            else:
+                common.log(f"note: known finding {fnd.id} no longer reproduces")
             continue
         hits = []
         for src, P in F08_3_WITNESSES:
